@@ -53,6 +53,8 @@ class ReservablePriorityReqFilterStore(FilterStore):
         self.reserve_get_queue = []  # Queue for managing reserve_get reservations
         self.reservations_get = []   # List of successful get reservations
         self.reserved_events = []     # Maintains events corresponding to reserved items to preserve item order
+        self._arrival_no = {}         # id(item) -> arrival number, used to keep released items in arrival order
+        self._arrivals = 0
 
 
     def reserve_put(self, priority=0):
@@ -231,7 +233,12 @@ class ReservablePriorityReqFilterStore(FilterStore):
         delta_position = len(self.reserved_events)
         #shifting the item
         item_to_shift = self.items.pop(event_in_index)
-        self.items.insert(delta_position-1, item_to_shift)
+        #the released item goes behind the items that are still reserved and behind older unreserved items
+        new_position = delta_position-1
+        arrival_no = self._arrival_no.get(id(item_to_shift), 0)
+        while new_position < len(self.items) and self._arrival_no.get(id(self.items[new_position]), 0) < arrival_no:
+          new_position += 1
+        self.items.insert(new_position, item_to_shift)
         #deleting the event
         self.reserved_events.pop(event_in_index)#if t is removed, then a waiting event can be succeeded, if any
 
@@ -454,6 +461,7 @@ class ReservablePriorityReqFilterStore(FilterStore):
 
         # Retrieve the assigned item and remove it from storage
         assigned_item = self.items.pop(item_index)
+        self._arrival_no.pop(id(assigned_item), None)
         self.reserved_events.pop(item_index)
 
         if assigned_item is None:
@@ -576,5 +584,7 @@ class ReservablePriorityReqFilterStore(FilterStore):
         if len(self.items) < self.capacity:
             item.put_time=self.env.now
             #print(f"Time is {self.env.now}")
+            self._arrivals += 1
+            self._arrival_no[id(item)] = self._arrivals
             self.items.append(item)
             return True  # Successfully added item
